@@ -394,9 +394,19 @@ func strs(v interface{}) []string {
 }
 
 // step executes one abstract operation; it returns the result class and extra fields to record.
-func (s *xsim) step(op fx.Ev) (string, fx.Ev, error) {
+// directPct: percentage of submissions handed to State.DoTx without a preceding VerifyTx (the path of the
+// re-admission after a walk and of any caller of the public DoTx); the result classes are the same.
+var directPct int
+var directRng *rand.Rand
+
+func (s *xsim) step(op fx.Ev) (res string, extra fx.Ev, err error) {
+	defer func() {
+		if r := recover(); r != nil {
+			res, extra, err = "panic", fx.Ev{"panic": fmt.Sprint(r)}, nil
+		}
+	}()
 	st := s.node.State
-	extra := fx.Ev{}
+	extra = fx.Ev{}
 	// A generated operation may name a block the real node never stored (see ledger.go): record and go on.
 	for _, f := range []string{"p", "b", "d"} {
 		if op.Has(f) && s.blocks[op.Int(f)] == nil {
@@ -410,13 +420,17 @@ func (s *xsim) step(op fx.Ev) (string, fx.Ev, error) {
 			return "", nil, err
 		}
 		tx := proto.Clone(t).(*pb.Transaction)
-		ok, verr := st.VerifyTx(tx)
-		if !ok || verr != nil {
-			if staleErr(verr) {
-				return "stale", extra, nil
+		if directPct > 0 && directRng != nil && directRng.Intn(100) < directPct {
+			extra["direct"] = true
+		} else {
+			ok, verr := st.VerifyTx(tx)
+			if !ok || verr != nil {
+				if staleErr(verr) {
+					return "stale", extra, nil
+				}
+				extra["err"] = fmt.Sprint(verr)
+				return "other", extra, nil
 			}
-			extra["err"] = fmt.Sprint(verr)
-			return "other", extra, nil
 		}
 		err = st.DoTx(tx)
 		if err == nil {
@@ -681,9 +695,15 @@ func (s *xsim) keyObs(vd *kledger.VersionedData, err error) keyObs {
 }
 
 // project issues the public queries the properties name on node nd.
-func (s *xsim) project(nd *fx.Node) xObs {
+func (s *xsim) project(nd *fx.Node) (o xObs) {
+	// a query that panics is an answer like any other: it is recorded (and cannot equal the specification's)
+	defer func() {
+		if r := recover(); r != nil {
+			o = xObs{Total: fmt.Sprintf("panic in a query: %v", r)}
+		}
+	}()
 	st := nd.State
-	o := xObs{Keys: map[string]keyObs{}, Utxo: [][]interface{}{}, Pool: []string{}, Snap: []map[string]keyObs{}, Bal: []string{}, Bald: [][]string{}, Scan: [][]string{}}
+	o = xObs{Keys: map[string]keyObs{}, Utxo: [][]interface{}{}, Pool: []string{}, Snap: []map[string]keyObs{}, Bal: []string{}, Bald: [][]string{}, Scan: [][]string{}}
 	o.Ptr = s.abs(st.GetLatestBlockid())
 	o.Ltip = s.abs(nd.Ledger.GetMeta().TipBlockid)
 	meta := st.GetMeta()
@@ -846,6 +866,7 @@ func xstateReplay(args []string) error {
 	replicaOn := fs.Bool("replica", false, "after every mined block replay its chain on a fresh replica (C13)")
 	cutsOn := fs.Bool("cuts", false, "reopen a node after every prefix of each operation's storage writes (crash points)")
 	fs.IntVar(&maxBlockMB, "maxmb", 0, "max block size of the chain in MB (0 = 16)")
+	fs.IntVar(&directPct, "direct", 0, "percentage of submissions that go to State.DoTx without VerifyTx")
 	scale := fs.String("scale", "1", "factor applied to every abstract amount (decimal)")
 	enc := fs.String("enc", "", "lz = outputs carry a leading zero byte")
 	fs.Parse(args)
@@ -879,6 +900,7 @@ func xstateReplay(args []string) error {
 			fx.StartLog()
 		}
 		rng := rand.New(rand.NewSource(seed()*7919 + int64(k)))
+		directRng = rand.New(rand.NewSource(seed()*104729 + int64(k)))
 		i := 0
 		for _, gop := range beh {
 			sub, err := s.expand(gop)
